@@ -45,6 +45,12 @@ EXTRA = {
 NUM_UNITS = ["m", "mm", "-", "kg", "C"]
 NAMES = ["t", "tab", "T", "é_1", "t "]
 COLNAMES = ["a", "b", "c", "d", "A", "col é", "x_1"]
+# column names that are different strings but collide or break as Python identifiers (namedtuple field names):
+# composed / decomposed accents (same identifier after NFKC), full-width vs ASCII, keywords, digit / underscore starts,
+# the names namedtuple's rename would invent
+CONFUSABLE_PAIRS = [("\u00e9", "e\u0301"), ("\uff41", "a"), ("class", "def"), ("1a", "a"), ("_1", "_2"), ("_0", "a"),
+                    ("\u212b", "\u00c5"), ("for", "_3"), ("a b", "a_b"), ("Index", "index")]
+COLNAMES = COLNAMES + ["\u00e9", "e\u0301", "\uff41", "class", "1a", "_1", "Index"]
 DESTS = [["all"], ["x", "y"], ["y", "x", "z"], ["all", "x"], []]
 # tz-aware instants: {"tsz": [wall-clock iso, zone]}; the first two are the same instant in different zones
 TSZ = [{"tsz": ["2020-01-01T12:00:00", "UTC"]}, {"tsz": ["2020-01-01T13:00:00", "Europe/Copenhagen"]},
@@ -261,7 +267,8 @@ def observe(t):
     return {"sub": type(t) is not Table, "name": t.name, "dests": sorted(t.destinations),
             "cols": list(t.column_names), "units": list(t.units),
             "rows": [[sc(x) for x in row] for row in t.df.itertuples()],
-            "transposed": bool(t.metadata.transposed), "origin": str(t.metadata.origin)}
+            "transposed": bool(t.metadata.transposed),
+            "origin": t.metadata.origin if isinstance(t.metadata.origin, str) else type(t.metadata.origin).__name__}
 
 
 # ---------------------------------------------------------------- reference (from the property text)
@@ -703,6 +710,24 @@ def cases(rng, tier, seed):
                     yield {"seed": seed, "index": idx, "mutation": "reorder_stale_units:" + how, "expected": False,
                            "a": copy.deepcopy(derived), "b": copy.deepcopy(stale)}
                     idx += 1
+        # column names that collide or are illegal as Python identifiers: reflexivity / iff must not depend on them
+        if len(base["cols"]) >= 2:
+            pa, pb = rng.choice(CONFUSABLE_PAIRS)
+            if rng.random() < 0.5:
+                pa, pb = pb, pa
+            odd = copy.deepcopy(base)
+            for k, c in enumerate(odd["cols"]):
+                c["name"] = f"col{k}"
+            i, j = rng.sample(range(len(odd["cols"])), 2)
+            odd["cols"][i]["name"], odd["cols"][j]["name"] = pa, pb
+            yield {"seed": seed, "index": idx, "mutation": "odd_names:identical", "expected": True,
+                   "a": odd, "b": copy.deepcopy(odd)}
+            idx += 1
+            ren = copy.deepcopy(odd)
+            ren["cols"][i]["name"], ren["cols"][j]["name"] = pb, pa     # the two names exchanged
+            yield {"seed": seed, "index": idx, "mutation": "odd_names:exchanged", "expected": False,
+                   "a": copy.deepcopy(odd), "b": ren}
+            idx += 1
         # histories: compare, edit one header aspect of one object in place, compare again, edit back, compare
         for _ in range(4):
             ha, hb, first, edits = gen_history(rng, base)
